@@ -251,21 +251,21 @@ for _p, _t in TIE_ADDENDA.items():
 
 # streams and theorems added in the fourth session (round 6 of seeded changes, coverage measurement)
 SESSION4 = {
- "C01": " Comment texts include strings that are annotations with a meaning elsewhere (&R, &U, NHX, BEAST attributes, support values): a comment is opaque data.",
+ "C01": " Comment texts include strings that are annotations with a meaning elsewhere (&R, &U, NHX, BEAST attributes, support values): a comment is opaque data. Also: CR LF and lines starting with # inside comments and quoted labels, to_file / from_file round trips incl. tree files of several hundred kilobytes with multi-byte labels, short decimal mantissas at far-away exponents (1.5e-29).",
  "C03": " Histories also START from trees built by the random generators (with lengths), by UPGMA (integer, decimal and tied matrices) and from copies of the object; shapes include polytomies of 33-96 children.",
- "C04": " Removed ids and ids never handed out are put to EVERY query that takes a node id (traversals, listings, root path, common ancestor, distance — alone, twice, and paired with a live node in either position): all must refuse. The public entry points of the ancestor / distance queries are model definitions of their own (commonAncestorPub / distancePub, Props/C09Pub).",
+ "C04": " Removed ids and ids never handed out are put to EVERY query that takes a node id (traversals, listings, root path, common ancestor, distance — alone, twice, and paired with a live node in either position): all must refuse. The public entry points of the ancestor / distance queries are model definitions of their own (commonAncestorPub / distancePub, Props/C09Pub). search_nodes shows the caller's predicate the live nodes only, each once, in arena order.",
  "C09": " Props/C09Pub: the public entry points refuse an id that is not a node of the tree in either position and coincide with the functions of the main theorems on nodes of the tree.",
  "C11": " rescale is also judged on copies in which a few branches carry the largest finite, infinite and subnormal lengths (the IEEE product, bit for bit); larger random trees (incl. wide polytomies) get prunes and regroupings at random places.",
- "C13": " Matrices of 4600-6500 taxa (thorough: up to 9000) in BOTH element types are read through indexed_iter / min / max / get against the integer inverse index.",
- "C14": " Labels that read as numbers (101, 7, 1e3, inf); every fifth random matrix also travels through to_file / from_file (fresh path or existing longer file, file content = to_phylip); square texts with ONE diagonal entry replaced (other spellings of zero accepted, negative / tiny / infinite / NaN rejected).",
+ "C13": " Matrices of 4600-6500 taxa (thorough: up to 9000) in BOTH element types are read through indexed_iter / min / max / get against the integer inverse index. Labels that read as positions (0- and 1-based numbers in shuffled order), ten-character prefixes; set(x, x, 0) is accepted and changes no cell.",
+ "C14": " Labels that read as numbers (101, 7, 1e3, inf); every fifth random matrix also travels through to_file / from_file (fresh path or existing longer file, file content = to_phylip); square texts with ONE diagonal entry replaced (other spellings of zero accepted, negative / tiny / infinite / NaN rejected). from_file is compared with the strict parser on arbitrary texts; labels with commas, quote characters, comment markers, ten-character prefixes; a thousand taxa; to_file on a device that refuses data.",
  "C15": " Non-negativity is judged WITHOUT tolerance; decimal matrices with many ties (tenths, correctly rounded) are judged by the oracles on the real result (this found the negative-branch defect repaired by the clamp); the clamp is part of the executable model (UPG.upgmaC, Props/C15Clamp: equal to the unclamped transcription on the property's domain, non-negative lengths for EVERY input) and matrices with negative entries are compared with it. UPGMA through the arena (Props/C15Arena): the arena built by add / add_child / merge_children has the same outcome as the loop model for every input, is well formed with one root at slot 0, represents the loop's tree including the child order under every node, has 2n-1 slots with the taxa in slots 1..n; the raw arena of every compared real result (slot numbers, child order, records) is compared with it.",
  "C08": " distance_matrix_recursive is a TRANSCRIPTION now (DMF.walkF / dmRecWalk: the undirected walk from every tip, per-tip rows, the by-name store) with the theorem that it equals the path-length specification under the invariant with at most one root, fuel adequacy, totality and cells = get_distance (Props/C08Walk); trees carry a length on the root now and then, also when no branch has one.",
  "C12": " The Yule normalisation of Sackin is modelled as an exact rational function and the two PDA normalisations by their squares (Props/C12Norm); the crate's floats must agree with the harness's own exact fractions to 1e-12 and those fractions are the model's.",
  "C16": " TRANSLATOR (second kind of tie, for this table-like code): before C16's obligations are built, lean/translate_formats.py reads the per-format field selection of Node::to_newick and the variants of NewickFormat from the CURRENT source and regenerates Props/C16Source.lean — the table as the code has it now plus the theorem that the model's keepName / keepLen / keepComment select exactly the same fields (model_table_is_source_table, by case analysis over the nine formats x tip / internal); a changed table breaks that obligation. When the function no longer has the shape the translator understands (a rewrite), the generated file says so and the table stays tied by the correspondence alone.",
  "C17": " A volume stream of 160 000 (thorough: 1.28 million) Yule / ETE3 requests of 48-80 tips with structural oracles only (an event of one step in a million shows); the generate subcommand of the real, unguarded binary runs under C17's oracles as well.",
  "C18": " Also: taxa whose names concatenate ambiguously (a+bc = ab+c; the unary family x, xx, xxx), markup-like labels, collapse -v (same tree on stdout, count on stderr), and the generate subcommand of the unguarded binary (every shape, distribution, -b, -n/-o) judged by C17's oracles. The REPORT subcommands have a model too (Arena/CliReport, Props/C18Report: stats row = library answers with '-' exactly for refusals, distance table = every pair of argument positions once and in order with get_distance values, compare columns consistent with the split sets and with rf, rows independent and numbered in argument order) and its answers are compared with the rows the real binary prints; also: odd file names, a tip named twice, a compared tree on another leaf set, -o naming the input itself or a bare relative file name, input files ending in blank lines or a second tree, numeric arguments in other spellings, tips below a branch of length 2^200.",
- "C19": " Labels with markup / format-string / shell metacharacters; drawings of 1000-2600 leaves (wedges stay proportional however thin).",
- "C20": " Node equality over every pair of live nodes and Node::remove_child on non-children are part of the cross product.",
+ "C19": " Labels with markup / format-string / shell metacharacters; drawings of 1000-2600 leaves (wedges stay proportional however thin). A layout moved by the caller (public fields) is rescaled like any other.",
+ "C20": " Node equality over every pair of live nodes and Node::remove_child on non-children are part of the cross product. Every comparison / matrix / bipartition query is asked twice of the same object (a refusal stays a refusal); writers on /dev/full must return an error.",
 }
 for _p, _t in SESSION4.items():
     CLAIMS[_p]["text"] = CLAIMS[_p]["text"].rstrip() + _t
